@@ -1,5 +1,6 @@
 (* Prop_C17.v — C17: non-acquiring operations never wait and never disturb holds. *)
-From HL Require Import Base Model Shape Algo Api OpsLemmas Lemmas ShapeLemmas ApiLemmas QuietLemmas Check Monitors Pf_Calls Pf_Hist.
+From HL Require Import Base Model Shape Algo Api Conc OpsLemmas Lemmas ShapeLemmas ApiLemmas QuietLemmas Check Monitors Pf_Calls Pf_Hist.
+From HL Require WpMain.
 
 (* Debug formatting of any lock / collection, in ANY world (locks held by anyone including the caller,
    faults or not): never waits *)
@@ -64,7 +65,23 @@ Example C17_every_history_nonvacuous :
   wf_histb ex_hist = true /\ length (model_obs ex_hist) = 15 /\ mon_C17 ex_hist (model_obs ex_hist) = true.
 Proof. vm_compute. repeat split. Qed.
 
+(* every schedule: an operation that is not an acquisition never waits — a thread inside a key operation, a guard access,
+   a drop / unlock, is_poisoned, clear_poison or Debug formatting is never parked on a blocking raw acquisition, in any
+   state reached under any schedule of the interleaved model *)
+Theorem C17_every_schedule_nonacquiring_never_waits :
+  forall b sched t o p k l, WpMain.wfB b = true ->
+  let sc := bs_sc b in
+  let s := fst (run_sched (bs_wp b) (sc_env sc) (sc_nlocks sc) (binit b) sched) in
+  th_cur (get_thr (b_thr s) t) = Some (o, p) -> (forall c m f, o <> AAcquire c m f) ->
+  parked (get_thr (b_thr s) t) = Some (ORaw k l) -> rop_blocking k = false.
+Proof.
+  intros b sched t o p k l W sc s CU NA PK. destruct (rop_blocking k) eqn:BL; [|reflexivity]. exfalso.
+  destruct (WpMain.every_schedule_only_blocking_acquisitions_wait b sched t k l W PK BL) as [c' [m' [f' [p' [CU' _]]]]].
+  fold sc in CU'. fold s in CU'. rewrite CU in CU'. inversion CU'; subst. now apply (NA c' m' f').
+Qed.
+
 Print Assumptions C17_fmt_never_waits.
 Print Assumptions C17_fmt_no_disturbance.
 Print Assumptions C17_accessors_no_raw_ops.
 Print Assumptions C17_every_history.
+Print Assumptions C17_every_schedule_nonacquiring_never_waits.
